@@ -39,6 +39,14 @@ Proof.
   rewrite Hf. rewrite cast_int_fits by assumption. reflexivity.
 Qed.
 
+Lemma np_value_id_eq dt sh k vsh vflat :
+  np_value_id dt sh k vsh = true -> np_value dt sh k (vsh, vflat) = (vsh, vflat).
+Proof.
+  unfold np_value_id, np_value. cbn [fst snd]. destruct vsh as [|d r].
+  - intros _. destruct (dt_is_bool dt && elem_key sh k && forallb (Z.eqb 1) []); reflexivity.
+  - intros H. destruct (dt_is_bool dt && elem_key sh k && forallb (Z.eqb 1) (d :: r)); [discriminate|reflexivity].
+Qed.
+
 (* ------------------------------------------------------------------ the round trip *)
 Lemma roundtrip_id sh fill (st : state Z) :
   sh <> [] -> zwf fill sh st -> roundtrip sh fill st = st.
@@ -62,7 +70,9 @@ Proof.
   - apply andb_true_iff in Hdom. destruct Hdom as [Hnf Hdom].
     rewrite (cast_agree dt (key_adv k) raw Hdt Hnf).
     destruct (np_cast dt (key_adv k) raw) as [[[vsh vflat]|e]|]; [| |discriminate].
-    + destruct (step_spec Z Z.eqb zeqb_eq fill sh st (k, arr_of_flat vsh vflat) Hok Hdom) as [Hs Hws].
+    + apply andb_true_iff in Hdom. destruct Hdom as [Hid Hdom].
+      rewrite (np_value_id_eq dt sh k vsh vflat Hid). cbn [fst snd].
+      destruct (step_spec Z Z.eqb zeqb_eq fill sh st (k, arr_of_flat vsh vflat) Hok Hdom) as [Hs Hws].
       split; [exact Hs|apply Hws; exact Hw].
     + split; [reflexivity|exact Hw].
   - assert (Hsh : sh <> []) by (destruct sh; [discriminate|discriminate]).
@@ -73,7 +83,7 @@ Lemma np_hstep_ext dt sh (a a' : idx -> Z) o :
   (forall ix, a ix = a' ix) -> forall ix, np_hstep dt sh a o ix = np_hstep dt sh a' o ix.
 Proof.
   intros He. destruct o as [k raw|]; simpl; [|exact He].
-  destruct (np_cast dt (key_adv k) raw) as [[[vsh vflat]|e]|]; try exact He.
+  destruct (np_cast dt (key_adv k) raw) as [[v|e]|]; try exact He.
   apply np_assign_ext. exact He.
 Qed.
 
